@@ -17,7 +17,7 @@ register("srv_worker_timed_out", span_expr(W, "poll", "Future for ServerWorker",
          r"else if (shutdown\.start_from\.elapsed\(\)\s*[<>=!]+\s*this\.shutdown_timeout)", "wkTimedOut",
          "(elapsed timeout : Nat)", "Bool",
          dict(reads={"shutdown.start_from.elapsed()": "elapsed", "this.shutdown_timeout": "timeout"})))
-register("srv_worker_tick_first", span_expr(W, "poll", "Future for ServerWorker",
+register("srv_worker_tick_first", span_expr(W, "handle_stop", "ServerWorker",
          r"timer:\s*Box::pin\(sleep\((Duration::from_\w+\([^)]*\))\)\)", "wkTickFirstMs", "", "Nat", {}))
 register("srv_worker_tick_next", span_expr(W, "poll", "Future for ServerWorker",
          r"let time = Instant::now\(\)\s*\+\s*(Duration::from_\w+\([^)]*\));", "wkTickNextMs", "", "Nat", {}))
